@@ -33,6 +33,23 @@ import (
 
 var xaConnTimeout time.Duration
 
+// branchCleanUpTimeout bounds the commands that end a branch after a failure
+const branchCleanUpTimeout = 10 * time.Second
+
+// detachedContext keeps the values of a context and drops its cancellation and deadline
+type detachedContext struct{ context.Context }
+
+func (detachedContext) Deadline() (time.Time, bool) { return time.Time{}, false }
+func (detachedContext) Done() <-chan struct{}       { return nil }
+func (detachedContext) Err() error                  { return nil }
+
+// cleanUpContext is the context under which a failed branch is ended and rolled back. The caller's context is
+// often the very reason for the failure (cancelled, deadline exceeded), and a driver sends no command under a
+// context that is done: the branch would stay ACTIVE on the session, holding its locks.
+func cleanUpContext(ctx context.Context) (context.Context, context.CancelFunc) {
+	return context.WithTimeout(detachedContext{ctx}, branchCleanUpTimeout)
+}
+
 // XAConn Database connection proxy object under XA transaction model
 // Conn is assumed to be stateful.
 type XAConn struct {
@@ -182,6 +199,7 @@ func (c *XAConn) BeginTx(ctx context.Context, opts driver.TxOptions) (result dri
 
 		if err = c.start(ctx); err != nil {
 			c.cleanXABranchContext()
+			c.reportPhaseOneFailed()
 			return nil, fmt.Errorf("failed to start xa branch xid:%s err:%w", c.txCtx.XID, err)
 		}
 		c.xaActive = true
@@ -211,6 +229,7 @@ func (c *XAConn) createNewTxOnExecIfNeed(ctx context.Context, f func() (types.Ex
 		err error
 	)
 
+	currentAutoCommit := c.autoCommit
 	defer func() {
 		recoverErr := recover()
 		if err != nil || recoverErr != nil {
@@ -223,22 +242,31 @@ func (c *XAConn) createNewTxOnExecIfNeed(ctx context.Context, f func() (types.Ex
 			}
 		}
 		if recoverErr != nil {
+			if tx != nil && c.xaActive {
+				// the branch opened for this statement is still ACTIVE on the session: end it and roll it back
+				c.autoCommit = false
+				if rollbackErr := c.Rollback(ctx); rollbackErr != nil {
+					log.Errorf("failed to rollback xa branch of :%s, err:%v", c.txCtx.XID, rollbackErr)
+				}
+				c.reportPhaseOneFailed()
+			}
 			// the caller dereferences the result when there is no error
 			result, resultErr = nil, fmt.Errorf("xa exec panic: %v", recoverErr)
 		}
+		if tx != nil {
+			// the branch opened for this one statement is over when the statement returns, prepared or rolled
+			// back: the connection is in auto-commit mode again. database/sql resets the session only when a
+			// connection comes out of the pool; on a connection the application keeps (db.Conn) the next
+			// statement would otherwise find the flag cleared, open no branch and run outside the transaction.
+			c.autoCommit = currentAutoCommit
+		}
 	}()
 
-	currentAutoCommit := c.autoCommit
 	if c.txCtx.TransactionMode != types.Local && tm.IsGlobalTx(ctx) && c.autoCommit {
 		tx, err = c.BeginTx(ctx, driver.TxOptions{Isolation: driver.IsolationLevel(gosql.LevelDefault)})
 		if err != nil {
 			return nil, err
 		}
-		// the branch opened for this one statement is over when the statement returns, prepared or rolled
-		// back: the connection is in auto-commit mode again. database/sql resets the session only when a
-		// connection comes out of the pool; on a connection the application keeps (db.Conn) the next
-		// statement would otherwise find the flag cleared, open no branch and run outside the transaction.
-		defer func() { c.autoCommit = currentAutoCommit }()
 	}
 
 	// execute SQL
@@ -256,6 +284,9 @@ func (c *XAConn) createNewTxOnExecIfNeed(ctx context.Context, f func() (types.Ex
 		if rollbackErr := c.Rollback(ctx); rollbackErr != nil {
 			log.Errorf("failed to rollback xa branch of :%s, err:%w", c.txCtx.XID, rollbackErr)
 		}
+		if tx != nil {
+			c.reportPhaseOneFailed()
+		}
 		return nil, err
 	}
 
@@ -266,6 +297,7 @@ func (c *XAConn) createNewTxOnExecIfNeed(ctx context.Context, f func() (types.Ex
 			if rollbackErr := c.Rollback(ctx); rollbackErr != nil {
 				log.Errorf("xa connection proxy rollback failure xid:%s, err:%v", c.txCtx.XID, rollbackErr)
 			}
+			c.reportPhaseOneFailed()
 			return nil, err
 		}
 		if err = c.Commit(ctx); err != nil {
@@ -274,12 +306,26 @@ func (c *XAConn) createNewTxOnExecIfNeed(ctx context.Context, f func() (types.Ex
 			if err := c.Rollback(ctx); err != nil {
 				log.Errorf("xa connection proxy rollback failure xid:%s, err:%v", c.txCtx.XID, err)
 			}
+			c.reportPhaseOneFailed()
 			// the branch did not reach PREPARED: the statement has not taken effect
 			return nil, err
 		}
 	}
 
 	return ret, nil
+}
+
+// reportPhaseOneFailed tells the coordinator that the registered branch of this connection was rolled back in
+// phase one. A branch the coordinator knows nothing else about takes part in phase two: an XA COMMIT (or XA
+// ROLLBACK) for an identifier the database has forgotten fails, and with it the global transaction.
+func (c *XAConn) reportPhaseOneFailed() {
+	baseTx, ok := c.tx.(*Tx)
+	if !ok || baseTx == nil || baseTx.tranCtx == nil || !baseTx.tranCtx.IsBranchRegistered() {
+		return
+	}
+	if err := baseTx.report(false); err != nil {
+		log.Errorf("failed to report the phase-one failure of xa branch %d of %s, err:%v", baseTx.tranCtx.BranchID, baseTx.tranCtx.XID, err)
+	}
 }
 
 func (c *XAConn) keepIfNecessary() {
@@ -358,6 +404,8 @@ func (c *XAConn) Rollback(ctx context.Context) error {
 		return fmt.Errorf("should NOT rollback on an inactive session")
 	}
 
+	ctx, cancel := cleanUpContext(ctx)
+	defer cancel()
 	if !c.rollBacked {
 		if c.xaResource.End(ctx, c.xaBranchXid.String(), xa.TMFail) != nil {
 			return c.rollbackErrorHandle()
@@ -410,6 +458,8 @@ func (c *XAConn) Commit(ctx context.Context) error {
 // commitErrorHandle rolls the branch back after XA END or XA PREPARE failed and returns the failure:
 // the caller must learn that the branch did not reach PREPARED even when the rollback went fine.
 func (c *XAConn) commitErrorHandle(ctx context.Context, cause error, ended bool) error {
+	ctx, cancel := cleanUpContext(ctx)
+	defer cancel()
 	if !ended {
 		// still ACTIVE as far as the database is concerned: XA ROLLBACK is only legal after XA END
 		if endErr := c.xaResource.End(ctx, c.xaBranchXid.String(), xa.TMFail); endErr != nil {
